@@ -31,11 +31,12 @@ const (
 	verifOutEOF
 	verifOutOther
 	verifOutNil
+	verifOutRespAndErr // a parsed reply together with a validation error
 	verifOutN
 )
 
 // verifOuts is the set of exchange outcomes explored by the running harness.
-var verifOuts = []int{verifOutOK, verifOutServfail, verifOutNetErr, verifOutEOF, verifOutOther, verifOutNil}
+var verifOuts = []int{verifOutOK, verifOutServfail, verifOutNetErr, verifOutEOF, verifOutOther, verifOutNil, verifOutRespAndErr}
 
 // verifUps is an upstream whose every exchange outcome is an explored choice.
 type verifUps struct {
@@ -60,6 +61,10 @@ func (u *verifUps) Exchange(_ context.Context, req *dns.Msg) (*dns.Msg, Network,
 		return nil, NetworkUDP, io.EOF
 	case verifOutOther:
 		return nil, NetworkUDP, errors.New("other")
+	case verifOutRespAndErr:
+		// what UpstreamPlain returns for a reply that does not match the query
+		u.lastResp = (&dns.Msg{}).SetReply(req)
+		return u.lastResp, NetworkUDP, errors.New("validating response: mismatched id")
 	}
 	return u.lastResp, NetworkUDP, nil
 }
@@ -92,7 +97,7 @@ func VerifC17Failover() {
 
 // VerifC17Failover2 explores every outcome kind over two steps.
 //
-//verif:harness name=H17a-failover2 tier=quick bounds="as H17a-failover with 2 steps and every exchange outcome from {NOERROR, SERVFAIL, net.Error, io.EOF, other error, nil response}" reach=done,failover,servfail-path,no-fallbacks maxpaths=400000
+//verif:harness name=H17a-failover2 tier=quick bounds="as H17a-failover with 2 steps and every exchange outcome from {NOERROR, SERVFAIL, net.Error, io.EOF, other error, nil response, mismatched reply returned together with an error}" reach=done,failover,servfail-path,no-fallbacks maxpaths=400000
 //verif:assume clock readings non-decreasing in [2^41, 2^62), backoff in (0, 2^40]; the pick among active upstreams / fallbacks is an explored choice
 func VerifC17Failover2() { verifC17Failover(2, false) }
 
